@@ -192,6 +192,9 @@ def cases(ctx):
     for i, a in enumerate([0.7, -1.234, 3.0, 5.5] + [ctx.rng.uniform(-7, 7) for _ in range(4 if ctx.quick else 200)]):
         if ctx.mine(i):
             yield {"kind": "sdk", "angle": a, "axis": "XYZ"[i % 3], "refused_between": ["inf", "nan", "-inf", "text"][i % 4]}
+    # two applications of one process (threads) queue float rotations on their own connections at the same time
+    if ctx.shard == 0:
+        yield {"kind": "sdk-two-threads", "angles": [[ctx.rng.uniform(-7, 7) for _ in range(ctx.n(150, 3000))] for _ in range(2)]}
     # the same float angle used on a FutureQubit (EPR context) and afterwards on ordinary qubits
     for i, a in enumerate([0.7, 1.234, -0.4, 2.0, 5.5] + [ctx.rng.uniform(0.05, 6.2) for _ in range(4 if ctx.quick else 60)]):
         if ctx.mine(i):
@@ -209,12 +212,20 @@ def run_case(ctx, case):
     import netqasm.sdk.toolbox.state_prep as sp
     _state["ctx"] = ctx
     _state["viol"] = None
+    if case["kind"] == "sdk-two-threads":
+        return _two_threads(ctx, case)
     a = case["angle"]
     if case["kind"] == "direct-sequence":
-        for tol in case["tols"]:
+        for tol in case["tols"] + case["tols"][:2]:
             ctx.count("repeated_angle_calls")
             try:
-                sp.get_angle_spec_from_float(a, tol)
+                handed = sp.get_angle_spec_from_float(a, tol)
+                if isinstance(handed, list):
+                    # the caller consumes the list it was handed (pops the steps as it emits them, appends a marker): the next
+                    # answer for the same angle is computed for that call, not taken from what this caller left behind
+                    while handed:
+                        handed.pop()
+                    handed.append((255, 0))
             except Exception as e:
                 ctx.fail(case, f"angle {a!r} tol {tol!r} (asked after {case['tols'][:case['tols'].index(tol)]}): raised {type(e).__name__}: {e}")
                 break
@@ -303,6 +314,57 @@ def run_case(ctx, case):
     elif _state["viol"]:
         ctx.fail(case, _state["viol"][0], key=_state["viol"][1])
     ctx.case(case, _nontrivial(a, tol))
+
+
+def _two_threads(ctx, case):
+    import sys
+    import threading
+    import netqasm.sdk.toolbox.state_prep as sp
+    from netqasm.sdk.qubit import Qubit
+    from vf.harness import controller as hc
+    hc.reset_globals()
+    hc.set_node_ids({"alice": 0, "bob": 1})
+    conns = [hc.PipelineConnection(n_, hc.make_node(n_, node_id=i_, stack=hc.RecordingStack()), max_qubits=2) for i_, n_ in enumerate(("alice", "bob"))]
+    qs = [Qubit(c) for c in conns]
+    for c in conns:
+        c.flush()
+    barrier = threading.Barrier(2)
+    errs = []
+
+    def work(t):
+        barrier.wait()
+        try:
+            for j, a in enumerate(case["angles"][t]):
+                getattr(qs[t], "rot_" + "XYZ"[(j + t) % 3])(angle=a)
+        except Exception as e:      # noqa
+            errs.append(f"application {t}: {type(e).__name__}: {str(e)[:120]}")
+    old = sys.getswitchinterval()
+    sys.setswitchinterval(1e-6)
+    try:
+        ths = [threading.Thread(target=work, args=(t,)) for t in range(2)]
+        [t.start() for t in ths]
+        [t.join(300) for t in ths]
+    finally:
+        sys.setswitchinterval(old)
+    if errs:
+        ctx.fail(case, "two applications queueing float rotations at the same time: " + errs[0])
+        return ctx.case(case, True)
+    for t, c in enumerate(conns):
+        c.flush()
+        got = [(i.mnemonic, i.angle_num.value, i.angle_denom.value) for i in c.subroutines[-1].instructions if i.mnemonic.startswith("rot_")]
+        want = []
+        for j, a in enumerate(case["angles"][t]):
+            want += [("rot_" + "xyz"[(j + t) % 3], n, d) for n, d in sp.get_angle_spec_from_float(a, 1e-4)]
+        ctx.count("rotations_queued_by_two_threads", len(want))
+        if got != want:
+            i_ = next((k for k, (g, w) in enumerate(zip(got, want)) if g != w), min(len(got), len(want)))
+            ctx.fail(case, f"two applications queueing float rotations at the same time: application {t} emitted {len(got)} rotation steps, "
+                           f"its own angles give {len(want)}; first difference at step {i_}: {got[i_:i_ + 2]} vs {want[i_:i_ + 2]}")
+            break
+        qs[t].measure()
+        c.flush()
+    _state["viol"] = None
+    ctx.case(case, True)
 
 
 def _future_qubit(ctx, case):
